@@ -20,8 +20,10 @@ extern "C" void harness_main()
   UtilContext *uc = new UtilContext();
   symx_assume(uc->set_cpu_by_name(CPUNAME) == 1);
   const int bpa = uc->bytes_per_address;
-  static const uint32_t addrs[4] = { 0x0, 0x20, 0xfffc, 0x12344 };
-  uint32_t addr = addrs[symx_fork("addr", 4)];          // in address units of the CPU
+  // 0x102: 16-bit aligned but not 32-bit aligned (only offered to the 8/16-bit commands)
+  // ADDRSET selects which classes this job enumerates (0: {0, 0x20}, 1: {0xfffc, 0x12344}, 2: {0x102})
+  static const uint32_t addrs[5] = { 0x0, 0x20, 0xfffc, 0x12344, 0x102 };
+  uint32_t addr = addrs[2 * ADDRSET + (ADDRSET == 2 ? 0 : (int)symx_fork("addr", 2))];          // in address units of the CPU
   int asp = symx_fork("addr_spelling", 3);
   int vsp = symx_fork("value_spelling", 3);             // decimal, 0x hex or h-suffix hex
   uint32_t v0 = symx_u32("v0"), v1 = symx_u32("v1");
